@@ -34,7 +34,8 @@ def shards(tier):
 def required_counters(tier):
     return {'judged:centre': 200, 'judged:boundary-probe': 1000, 'judged:length-vs-scale': 300, 'judged:class': 200,
             'lane:CircleSkyRegion': 10, 'lane:EllipseSkyRegion': 10, 'lane:RectangleSkyRegion': 10, 'lane:CircleAnnulusSkyRegion': 10,
-            'lane:EllipseAnnulusSkyRegion': 10, 'lane:RectangleAnnulusSkyRegion': 10, 'region-in-other-frame': 30}
+            'lane:EllipseAnnulusSkyRegion': 10, 'lane:RectangleAnnulusSkyRegion': 10, 'region-in-other-frame': 30,
+            'centre-exactly-on-equator': 20}
 
 
 CLASSES = ['CircleSkyRegion', 'EllipseSkyRegion', 'RectangleSkyRegion', 'CircleAnnulusSkyRegion', 'EllipseAnnulusSkyRegion',
@@ -44,7 +45,13 @@ CLASSES = ['CircleSkyRegion', 'EllipseSkyRegion', 'RectangleSkyRegion', 'CircleA
 def generate(rng, tier, shard, nshards):
     n = 500 if tier == 'quick' else 6000
     for i in range(n):
-        w = gen.wcs_spec(rng, conformal=True)
+        equator = rng.random() < 0.12
+        if equator:
+            # an image that straddles the equator of its frame; the region centre is put EXACTLY on latitude 0 (or longitude 0)
+            sc = gen.logu(rng, 1e-5, 1e-2)
+            w = gen.wcs_spec(rng, conformal=True, scale=sc, crval=(rng.choice([rng.uniform(0, 360), 0.0, 1e-3]), rng.uniform(-100, 100) * sc))
+        else:
+            w = gen.wcs_spec(rng, conformal=True)
         cls = rng.choice(CLASSES)
         ang = rng.choice([0, 90, 180, 270]) + rng.choice([-1, 1]) * rng.uniform(5, 85) + 360 * rng.randint(-2, 2)
         unit = rng.choice(['deg', 'rad', 'arcmin'])
@@ -52,7 +59,9 @@ def generate(rng, tier, shard, nshards):
                'a_px': rng.uniform(1, 50), 'ratio': rng.uniform(1.25, 4.0), 'wide': rng.random() < 0.5,
                'inner': rng.uniform(0.2, 0.8), 'angle_deg': ang, 'angle_unit': unit, 'size_unit': rng.choice(['arcsec', 'arcmin', 'deg']),
                'size_unit2': rng.choice(['arcsec', 'arcmin', 'deg', 'mas']),
-               'other_frame': (rng.choice([f for f in ('icrs', 'galactic', 'fk5', 'fk4') if f != w['frame']]) if rng.random() < 0.35 else None),
+               'other_frame': (rng.choice([f for f in ('icrs', 'galactic', 'fk5', 'fk4') if f != w['frame']])
+                               if rng.random() < 0.35 and not equator else None),
+               'equator': equator,
                'rs': rng.randrange(2 ** 31)}
 
 
@@ -70,6 +79,10 @@ def run_case(case, obs):
         # frame's north (the oracle offsets are made in the region's own frame and pushed through world_to_pixel)
         centre = centre.transform_to(case['other_frame'])
         obs.count('region-in-other-frame')
+    if case.get('equator'):
+        lon = 0.0 * u.deg if (abs(centre.spherical.lon.wrap_at(180 * u.deg).deg) < 1.0 and case['rs'] % 2) else centre.spherical.lon
+        centre = SkyCoord(lon, 0.0 * u.deg, frame=centre.frame)
+        obs.count('centre-exactly-on-equator')
     ref = w.pixel_to_world(w.wcs.crpix[0] - 1, w.wcs.crpix[1] - 1)
     major = case['a_px'] * scale * u.deg
     minor = major / case['ratio']
